@@ -1369,9 +1369,16 @@ func pan3Site(p *Program, r0 *RuleResult, s boundSite, rg map[*ssa.Global]string
 	if len(roots) > 0 {
 		allParams := true
 		for _, rt := range roots {
-			if _, ok := rt.(*ssa.Parameter); !ok {
-				allParams = false
+			if _, ok := rt.(*ssa.Parameter); ok {
+				continue
 			}
+			// a captured variable of a function literal
+			if ld, ok := rt.(*ssa.UnOp); ok && fn.Parent() != nil {
+				if _, isFV := ld.X.(*ssa.FreeVar); isFV {
+					continue
+				}
+			}
+			allParams = false
 		}
 		if allParams {
 			if w, decided, n := pan3InCallers(p, s, rg); w != "" {
@@ -1525,6 +1532,10 @@ func pan3Site(p *Program, r0 *RuleResult, s boundSite, rg map[*ssa.Global]string
 // hypothesis had known bounds and none was out of range.
 func pan3InCallers(p *Program, s boundSite, rg map[*ssa.Global]string) (witness string, decided bool, nsites int) {
 	sites, ok := p.directCallSites(s.fn)
+	if !ok && s.fn.Parent() != nil {
+		// a closure that its enclosing function only calls: decided in that function
+		return pan3InEnclosing(p, s, rg)
+	}
 	if !ok {
 		return "", false, 0
 	}
@@ -1602,6 +1613,103 @@ func pan3InCallers(p *Program, s boundSite, rg map[*ssa.Global]string) (witness 
 		}
 	}
 	return "", true, len(sites)
+}
+
+// pan3InEnclosing: the site lies in a function literal whose value is only called
+// by the enclosing function: that function is analysed under the length classes
+// of the slices the literal captures (as stored into the captured variables)
+// and of its own slice roots, the literal being analysed at each of its calls.
+func pan3InEnclosing(p *Program, s boundSite, rg map[*ssa.Global]string) (string, bool, int) {
+	F := s.fn.Parent()
+	var mc *ssa.MakeClosure
+	for _, b := range F.Blocks {
+		for _, ins := range b.Instrs {
+			if m, ok := ins.(*ssa.MakeClosure); ok && m.Fn == ssa.Value(s.fn) {
+				if mc != nil {
+					return "", false, 0
+				}
+				mc = m
+			}
+		}
+	}
+	if mc == nil || mc.Referrers() == nil {
+		return "", false, 0
+	}
+	ncalls := 0
+	for _, ref := range *mc.Referrers() {
+		switch x := ref.(type) {
+		case *ssa.Call:
+			if x.Common().Value != ssa.Value(mc) {
+				return "", false, 0
+			}
+			ncalls++
+		case *ssa.DebugRef:
+		default:
+			return "", false, 0
+		}
+	}
+	if ncalls == 0 {
+		return "", false, 0
+	}
+	// roots: what the enclosing function stores into the captured slice variables
+	var roots []ssa.Value
+	seen := map[ssa.Value]bool{}
+	for _, bnd := range mc.Bindings {
+		al, ok := bnd.(*ssa.Alloc)
+		if !ok || al.Referrers() == nil {
+			continue
+		}
+		if !isSliceOrString(al.Type().(*types.Pointer).Elem()) {
+			continue
+		}
+		for _, ref := range *al.Referrers() {
+			if st, ok := ref.(*ssa.Store); ok && st.Addr == ssa.Value(al) {
+				rootsOf(st.Val, seen, &roots)
+			}
+		}
+	}
+	if len(roots) == 0 || len(roots) > 3 {
+		return "", false, 0
+	}
+	classes := make([][]aval, len(roots))
+	total := 1
+	for i, rt := range roots {
+		cl, _ := lengthClasses(rt, rg)
+		classes[i] = cl
+		total *= len(cl)
+	}
+	assign := make([]int, len(roots))
+	for n := 0; n < total; n++ {
+		k := n
+		for i := range roots {
+			assign[i] = k % len(classes[i])
+			k /= len(classes[i])
+		}
+		an := newAnalyzer()
+		an.maxBlocks = 200
+		an.callModel = pan3Model(rg)
+		var hyp []string
+		for i, rt := range roots {
+			an.pin[rt] = classes[i][assign[i]]
+			hyp = append(hyp, classes[i][assign[i]].String())
+		}
+		res := an.analyze(F, nil)
+		if res.nonconverged {
+			return "", false, 0
+		}
+		for _, h := range res.hazards {
+			if h.leaf == s.ins {
+				if strings.Contains(h.what, "index ?") {
+					return "", false, 0
+				}
+				return fmt.Sprintf("from %s with operand lengths %s: %s", short(F), strings.Join(hyp, ","), h.what), false, 0
+			}
+		}
+		if res.siteUndecided[s.ins] > 0 {
+			return "", false, 0
+		}
+	}
+	return "", true, ncalls
 }
 
 func isConstVal(v ssa.Value) bool {
